@@ -21,11 +21,13 @@ import (
 	"github.com/flamego/flamego/verifharness/internal/rt"
 )
 
-const rule = "case = a handler stack: 0..3 application middleware, 0..2 nested groups (some declared with the empty path) with 0..2 handlers each, 1..3 route handlers and an optional final action; each handler is a straight-line program of 0..4 operations over {write a status, write body bytes (Write or io.Copy; the underlying writer with or without io.ReaderFrom), Next(), Next() under a recover, cancel the request context (directly, through a derived context installed on the request, or by a deadline that has passed), panic} plus an optional return value (non-empty string, empty string, nil error, non-nil error). " +
+const rule = "case = a handler stack: 0..3 application middleware, 0..3 nested groups (some declared with the empty path) with 0..2 handlers each, 1..3 route handlers and an optional final action; each handler is a straight-line program of 0..4 operations over {write a status, write body bytes (Write or io.Copy; the underlying writer with or without io.ReaderFrom), Next(), Next() under a recover, cancel the request context (directly, through a derived context installed on the request, or by a deadline that has passed), install a live derived or a fresh context on the request, panic} plus an optional return value (non-empty string, empty string, nil error, non-nil error). " +
 	"Oracle: the trace of enter/next/back/exit events, final status and body must equal those of a cursor interpreter written from the statement (cursor = next handler not yet started); plus model-free invariants on the real trace: handlers are entered as 0,1,2,... without gap or repetition, and enter/exit events nest like calls. " +
 	"non-trivial = a program with a Next() issued after a write or cancel, or >=2 Next() in one handler, or a write inside a handler reached through Next(), or a chain that reaches a nil action, or a panic crossing a recovering Next(); distinct by case text"
 
 var assumptions = []string{
+	"reading of the statement for an explicit Next(): it starts the next handler unless the request context is cancelled at that moment (then it starts nothing), also after a write - 'the remainder runs as far as it gets', and after that handler returns the chain does not advance on its own because something has been written; this is what the repository's own TestContext_Next / TestFlame_EarlyWrite / TestContext_RequestContextCancel show",
+	"what happens to the chain after a panic crossed run() and was recovered by an outer handler is not compared (the statement does not say)",
 	"handlers are closures of the shapes func(Context) and func(Context) <result>; both the fast-invoker wrapping and the reflective path are exercised",
 	"a panic that no handler recovers escapes ServeHTTP in the implementation and in the interpreter alike; only the trace up to it is compared",
 }
@@ -35,7 +37,8 @@ func TestMain(m *testing.M) { evid.Main(m, "C03", rule, assumptions) }
 // H is one handler program. Ops: "s<code>" write status, "b" write body, "bc" the same through io.Copy,
 // "n" Next, "r" Next under recover, "c" cancel, "d" install a derived request
 // context and cancel that, "t" install a request context whose deadline has
-// passed, "p" panic.
+// passed, "l" install a live derived context, "f" install a fresh live context,
+// "p" panic.
 // Ret: "" none, "str", "empty", "nilerr", "err".
 type H struct {
 	Ops []string `json:"ops"`
@@ -60,6 +63,8 @@ type Case struct {
 	// EmptyGroupPath: bit d set = the group at depth d is declared with the
 	// empty path (it only contributes its handlers).
 	EmptyGroupPath int `json:"empty_group_path,omitempty"`
+	// Wrapper: a HandlerWrapper (the identity) is configured on the router.
+	Wrapper bool `json:"handler_wrapper,omitempty"`
 }
 
 func (c Case) groupPath(d int) string {
@@ -99,7 +104,8 @@ type result struct {
 	Trace   []string
 	Status  int
 	Body    string
-	Escaped bool // a panic escaped the whole chain
+	Escaped bool   // a panic escaped the whole chain
+	Second  string // how a second, identical request differed from the first ("" = it did not)
 }
 
 type interp struct {
@@ -108,8 +114,11 @@ type interp struct {
 	cursor    int
 	written   bool
 	cancelled bool
+	detached  bool // the request carries a context unrelated to the one it arrived with
 	res       result
 }
+
+type ctxKey struct{}
 
 type chainPanic struct{ at int }
 
@@ -176,8 +185,18 @@ func (m *interp) exec(i int, h *H) {
 				m.run()
 			}()
 			m.ev("back %d", i)
-		case op == "c", op == "d", op == "t":
+		case op == "c":
+			// cancels the context the request arrived with: that is "the request
+			// context" unless a handler has installed an unrelated one since
+			if !m.detached {
+				m.cancelled = true
+			}
+		case op == "d", op == "t":
 			m.cancelled = true
+		case op == "l":
+			// a live derived context changes nothing
+		case op == "f":
+			m.cancelled, m.detached = false, true
 		case op == "p":
 			m.ev("panic %d", i)
 			panic(chainPanic{i})
@@ -221,6 +240,7 @@ func real(c Case) (res result) {
 	var trace []string
 	ev := func(format string, args ...interface{}) { trace = append(trace, fmt.Sprintf(format, args...)) }
 	var cancel gocontext.CancelFunc
+	var later []func() // clean-up of live contexts, run when the request is over
 	idx := 0
 	mk := func(h H) flamego.Handler {
 		i := idx
@@ -263,6 +283,16 @@ func real(c Case) (res result) {
 					derived, cancelDerived := gocontext.WithCancel(ctx.Request().Context())
 					ctx.Request().Request = ctx.Request().WithContext(derived)
 					cancelDerived()
+				case op == "l":
+					// a live derived context (a value, and a deadline far away) is
+					// installed: the request context is not cancelled
+					derived, stop := gocontext.WithTimeout(gocontext.WithValue(ctx.Request().Context(), ctxKey{}, i), time.Hour)
+					later = append(later, stop)
+					ctx.Request().Request = ctx.Request().WithContext(derived)
+				case op == "f":
+					// a fresh, live context replaces whatever was there (also a
+					// cancelled one): the request context is not cancelled any more
+					ctx.Request().Request = ctx.Request().WithContext(gocontext.Background())
 				case op == "t":
 					// the request context the handler installs has a deadline that
 					// has passed: it is done, just as a cancelled one
@@ -288,6 +318,11 @@ func real(c Case) (res result) {
 		return func(ctx flamego.Context) { body(ctx); ev("exit %d", i) }
 	}
 	f := flamego.NewWithLogger(io.Discard)
+	if c.Wrapper {
+		// every handler of this harness is a closure of one function literal: a
+		// wrapper (or anything keyed by the code pointer) must keep them apart
+		f.HandlerWrapper(func(h flamego.Handler) flamego.Handler { return h })
+	}
 	for _, h := range c.Middleware {
 		f.Use(mk(h))
 	}
@@ -333,34 +368,51 @@ func real(c Case) (res result) {
 	if method == "" {
 		method = "GET"
 	}
-	req := rt.NewRequest(method, path, nil)
-	ctx, cf := gocontext.WithCancel(gocontext.Background())
-	cancel = cf
-	defer cf()
-	req = req.WithContext(ctx)
-	rec := httptest.NewRecorder()
-	rec.Code = 0
-	func() {
+	serveOnce := func() (r result) {
+		trace = nil
+		req := rt.NewRequest(method, path, nil)
+		ctx, cf := gocontext.WithCancel(gocontext.Background())
+		cancel = cf
+		defer cf()
 		defer func() {
-			if r := recover(); r != nil {
-				if _, ok := r.(harnessPanic); !ok {
-					panic(r)
+			for _, f := range later {
+				f()
+			}
+			later = nil
+		}()
+		req = req.WithContext(ctx)
+		rec := httptest.NewRecorder()
+		rec.Code = 0
+		func() {
+			defer func() {
+				if p := recover(); p != nil {
+					if _, ok := p.(harnessPanic); !ok {
+						panic(p)
+					}
+					r.Escaped = true
 				}
-				res.Escaped = true
+			}()
+			if c.ReaderFrom {
+				f.ServeHTTP(rfRecorder{rec}, req)
+			} else {
+				f.ServeHTTP(rec, req)
 			}
 		}()
-		if c.ReaderFrom {
-			f.ServeHTTP(rfRecorder{rec}, req)
-		} else {
-			f.ServeHTTP(rec, req)
+		r.Trace = trace
+		r.Status = rec.Code
+		if !recWritten(rec) {
+			r.Status = 0
 		}
-	}()
-	res.Trace = trace
-	res.Status = rec.Code
-	if !recWritten(rec) {
-		res.Status = 0
+		r.Body = rec.Body.String()
+		return r
 	}
-	res.Body = rec.Body.String()
+	res = serveOnce()
+	// the same request once more on the same instance: nothing of the first
+	// chain's state (cursor, handlers consumed) may be left behind
+	again := serveOnce()
+	if strings.Join(again.Trace, ",") != strings.Join(res.Trace, ",") || again.Status != res.Status || again.Body != res.Body || again.Escaped != res.Escaped {
+		res.Second = fmt.Sprintf("the same request served again on the same instance gives trace %v status %d body %q (first time: trace %v status %d body %q)", again.Trace, again.Status, again.Body, res.Trace, res.Status, res.Body)
+	}
 	return res
 }
 
@@ -484,8 +536,28 @@ func checkCase(c Case) (out evid.Outcome) {
 		}
 	}
 
+	if got.Second != "" {
+		return fail(out, "second-request", "%s; program %s", got.Second, js(c))
+	}
+	// what the chain does once a panic has crossed run() and was recovered by an
+	// outer handler is not said by the statement: the traces are compared up to
+	// the first recovery, the response is not compared then
+	recovered := false
+	cut := func(tr []string) []string {
+		for i, e := range tr {
+			if strings.HasPrefix(e, "recovered ") {
+				recovered = true
+				return tr[:i+1]
+			}
+		}
+		return tr
+	}
+	got.Trace, want.Trace = cut(got.Trace), cut(want.Trace)
 	if strings.Join(got.Trace, ",") != strings.Join(want.Trace, ",") {
 		return fail(out, "trace", "trace differs from the statement's interpreter:\n  got  %v\n  want %v\n  program %s", got.Trace, want.Trace, js(c))
+	}
+	if recovered {
+		return out
 	}
 	if got.Escaped != want.Escaped {
 		return fail(out, "escape", "panic escaped=%v, interpreter says %v; program %s", got.Escaped, want.Escaped, js(c))
@@ -534,7 +606,7 @@ func genH(t *rapid.T) H {
 		case k < 17:
 			h.Ops = append(h.Ops, "c")
 		case k < 18:
-			h.Ops = append(h.Ops, []string{"d", "d", "t"}[rapid.IntRange(0, 2).Draw(t, "dk")])
+			h.Ops = append(h.Ops, []string{"d", "d", "t", "l", "l", "f"}[rapid.IntRange(0, 5).Draw(t, "dk")])
 		default:
 			h.Ops = append(h.Ops, "p")
 		}
@@ -566,6 +638,7 @@ func genCase(t *rapid.T) Case {
 	c.SiblingsBefore = rapid.IntRange(0, 2).Draw(t, "sibbefore")
 	c.SiblingsAfter = rapid.IntRange(0, 2).Draw(t, "sibafter")
 	c.ReaderFrom = rapid.Bool().Draw(t, "readerfrom")
+	c.Wrapper = rapid.IntRange(0, 3).Draw(t, "wrapper") == 0
 	if len(c.Groups) > 0 && rapid.IntRange(0, 3).Draw(t, "emptygroup") == 0 {
 		c.EmptyGroupPath = rapid.IntRange(1, 1<<len(c.Groups)-1).Draw(t, "emptymask")
 	}
